@@ -77,7 +77,7 @@ class Models:
                 return Opaque("fmt:" + type(t).__name__)
             return Opaque("fmt")
 
-        @R(r"^<T as Into<String>>::into$|^<&str as Into<String>>::into$|^<str as ToString>::to_string$|^<String as From<&str>>::from$|^<T as Into<U>>::into$|^<str as ToOwned>::to_owned$|^String::as_str$|^<String as Deref>::deref$")
+        @R(r"^<T as Into<String>>::into$|^<&str as Into<String>>::into$|^<str as ToString>::to_string$|^<&str as ToString>::to_string$|^<String as From<&str>>::from$|^<T as Into<U>>::into$|^<str as ToOwned>::to_owned$|^String::as_str$|^<String as Deref>::deref$")
         def _str_id(ex, c, a):
             v = deref(a[0])
             return v
